@@ -15,7 +15,7 @@ PID = "C09"
 THEOREMS = ["multseq_sorted_once", "multseq_sound", "multseq_refuses_iff", "multseq_refuses_iff_bases", "chain_to_base",
             "zoom_level_eq_direct", "zoom_levels_eq_chain", "zoom_layout", "specLevel_compose", "coarsenLevel_eq_spec",
             "expandSpec_int", "expandSpec_list", "mem_binary", "mem_nice", "preferred_bounds"]
-LEVELS = {"zoomify": "top", "columns": "top", "cli": "top", "multseq": "unit", "preferred": "unit"}
+LEVELS = {"zoomify": "top", "columns": "top", "cli": "top", "forms": "top", "sequence": "top", "multseq": "unit", "preferred": "unit"}
 DESCRIBE = {
     "zoomify": "cooler.zoomify_cooler(bases, out, resolutions, chunksize, nproc): refusal iff Lean `getMultiplierSequence` errs; "
                "`list_coolers(out)` = Lean `listing` (exactly /resolutions/<r> for r in the sorted union), `is_multires_file`; every base "
@@ -25,6 +25,12 @@ DESCRIBE = {
     "columns": "zoomify_cooler(columns=['count','w']): derived levels carry the extra column with the per-key sums (D25 regression)",
     "cli": "`cooler zoomify -r <spec> [-i base2]` (CliRunner) for every spelling (N, B, 4DN, <k>N, <k>B, integers, comma lists, upper "
            "case, blanks, default): produced resolutions = Lean `expandResolutionSpec` + base; levels = Lean L0; bad items exit != 0",
+    "forms": "the same target set handed to zoomify_cooler as a list, tuple, set, frozenset, numpy array, pandas Series, dict keys, range, "
+             "generator, iter(list) and map object: the levels written (listing, layout) and their content must not depend on the form — "
+             "each run vs the same Lean model",
+    "sequence": "several zoomify_cooler calls in ONE process with the `dtypes` argument OMITTED: an int32-count base, then a float64-count "
+                "base holding quarters (the integer model answers x4), then an int32 base again; every level of every file = direct "
+                "coarsening of ITS base (Lean), stored with ITS base's value dtype — no state may leak from one call to the next",
     "multseq": "get_multiplier_sequence(resolutions, bases): raises iff Lean says so (some non-base member has no smaller member "
                "dividing it, equivalently is not a multiple of any base: theorems multseq_refuses_iff / _bases); otherwise its output "
                "satisfies the Lean contract `validMultSeq` and `resn` is the sorted union",
@@ -34,7 +40,8 @@ RULE = ("bases of width 1-3 over 1-2 chromosomes (<= 14 bins, short last bins) a
         "= subsets of size <= 3 of the multiples <= 12*base (quick: seeded sample of ~60; thorough: all 299) in shuffled order, with "
         "and without the base, with a non-derivable member (must raise); 1, 2 and 3 base URIs with INDEPENDENT data (a base that is "
         "a multiple of another base must stay a copy of its own source: D19; two bases: D9); chunksize 1..nnz+1, nproc 1 (quick) / "
-        "1-2 (thorough); multseq: ALL resolution sets within {1..24} of size <= 3 x bases None / subsets of resolutions+{1,2,3} (quick: "
+        "1-2 (thorough); forms: 11 presentations of one target set; sequence: int32 -> float64 (quarters) -> int32 calls in one process, "
+        "dtypes omitted; multseq: ALL resolution sets within {1..24} of size <= 3 x bases None / subsets of resolutions+{1,2,3} (quick: "
         "size <= 2; thorough: all); non-trivial = >= 2 levels and >= 2 pixels; distinct by canonical JSON")
 EXHAUSTIVE = {"quick": False, "thorough": True}
 TRUSTED = ["h5py Group.copy / attrs.update / file modes and natsort are primitives of the model",
@@ -333,7 +340,141 @@ def _preferred(case):
     return None
 
 
-CHECKS = {"zoomify": _zoomify, "columns": _columns, "cli": _cli, "multseq": _multseq, "preferred": _preferred}
+
+# ----------------------------------------------------------------------------------------------
+# presentation of the arguments; sequences of calls in one process
+# ----------------------------------------------------------------------------------------------
+
+FORMS = {
+    "list": lambda r: list(r),
+    "tuple": lambda r: tuple(r),
+    "set": lambda r: set(r),
+    "frozenset": lambda r: frozenset(r),
+    "ndarray": lambda r: np.array(list(r), dtype=np.int64),
+    "series": lambda r: pd.Series(list(r), dtype=np.int64),
+    "dict_keys": lambda r: {x: None for x in r}.keys(),
+    "generator": lambda r: (x for x in list(r)),
+    "iter": lambda r: iter(list(r)),
+    "map": lambda r: map(int, [str(x) for x in r]),
+}
+
+
+def _forms(case):
+    """the set of levels written and their content do not depend on how `resolutions` is presented"""
+    d = gen.tmpdir()
+    tag = _tag()
+    out = os.path.join(d, f"zf-{tag}-out.mcool")
+    paths = []
+    try:
+        paths = _write_bases(case, d, tag)
+        res = list(case["resolutions"])
+        lean_bases = [{"res": _base_res(b), "bins": b["bins"], "pixels": b["pixels"]} for b in case["bases"]]
+        m = drv().ask("C09.zoomify", bases=lean_bases, resolutions=res, chunksize=case["chunksize"])
+        assert m["bases_ok"] and "ok" in m, "generator: forms cases use derivable targets over valid bases"
+        mo = m["ok"]
+        assert mo["l1_agrees"] and mo["multseq_valid"], "theorem zoom_level_eq_direct / multseq_sound contradicted"
+        forms = dict(FORMS)
+        if len(res) >= 2 and sorted(res) == list(range(min(res), max(res) + 1, sorted(res)[1] - sorted(res)[0])):
+            forms["range"] = lambda r: range(min(r), max(r) + 1, sorted(r)[1] - sorted(r)[0])
+        for name in case.get("forms") or sorted(forms):
+            if name not in forms:
+                continue
+            _unlink(out)
+            try:
+                impl(cooler.zoomify_cooler, list(paths), out, forms[name](res), case["chunksize"])
+                r = _check_output(case, out, paths, mo)
+            except Exception as e:          # attribute the failure to the presentation that caused it
+                if type(e).__name__ != "ImplRaised":
+                    raise
+                return {"mismatch": True, "form": name, "impl_raised": e.cls, "message": e.msg, "where": e.where,
+                        "note": "zoomify_cooler raised for an equally valid presentation of the target resolutions"}
+            if r:
+                return dict(r, form=name, note="the result depends on how the target resolutions are presented "
+                                               f"({name}); the list form is the reference")
+        return {"stats": {"forms": len(forms)}}
+    finally:
+        _unlink(out, *paths)
+
+
+def _write_float_base(path, b):
+    """count column float64 holding quarters: stored value = numerator / 4"""
+    px = b["pixels"]
+    df = pd.DataFrame({"bin1_id": np.array([p[0] for p in px], dtype=np.int64), "bin2_id": np.array([p[1] for p in px], dtype=np.int64),
+                       "count": np.array([p[2] / 4.0 for p in px], dtype=np.float64)})
+    cooler.create_cooler(path, gen.bins_df(b["bins"]), df, dtypes={"count": np.float64}, symmetric_upper=b.get("symm", True), ordered=True)
+
+
+def _check_levels_dtype(out, b, resolutions, chunksize, scale, dtype_kind, step):
+    """every level of `out` = Lean's level of base `b` (values x `scale` are the integers of the model) with the base's dtype"""
+    m = drv().ask("C09.zoomify", bases=[{"res": _base_res(b), "bins": b["bins"], "pixels": b["pixels"]}],
+                  resolutions=list(resolutions), chunksize=chunksize)
+    assert m["bases_ok"] and "ok" in m, "generator: sequence cases use derivable targets over valid bases"
+    mo = m["ok"]
+    assert mo["l1_agrees"] and mo["multseq_valid"], "theorem zoom_level_eq_direct / multseq_sound contradicted"
+    listing = impl(cooler.fileops.list_coolers, out)
+    if listing != mo["listing"]:
+        return {"mismatch": True, "call": step, "what": "list_coolers", "impl": listing, "model": mo["listing"]}
+    for i, r in enumerate(mo["resn"]):
+        uri = f"{out}::resolutions/{r}"
+        want = mo["levels"][i]
+        c = cooler.Cooler(uri)
+        t = c.pixels()[:]
+        with h5py.File(out, "r") as f:
+            dt = f[f"resolutions/{r}/pixels/count"].dtype
+        if dt.kind != dtype_kind:
+            return {"mismatch": True, "call": step, "resolution": r, "what": "value dtype of the level differs from its base's",
+                    "impl": str(dt), "base_kind": dtype_kind}
+        vals = [float(v) * scale for v in t["count"]]
+        if any(v != int(v) for v in vals):
+            return {"mismatch": True, "call": step, "resolution": r, "what": "stored values are not sums of the base's values",
+                    "impl": [float(v) for v in t["count"]][:12]}
+        got = [[int(a), int(b_), int(v)] for a, b_, v in zip(t["bin1_id"], t["bin2_id"], vals)]
+        gb = gen.df_bins(c.bins()[["chrom", "start", "end"]][:], list(c.chromnames))
+        if gb != want["bins"]:
+            return {"mismatch": True, "call": step, "resolution": r, "what": "bin table", "impl": gb, "model": want["bins"]}
+        if got != want["pixels"]:
+            return {"mismatch": True, "call": step, "resolution": r, "what": f"pixel table (values x{scale})", "dtype": str(dt),
+                    "impl": got, "model": want["pixels"]}
+        if float(c.info["sum"]) * scale != want["total"] or int(c.info["nnz"]) != len(want["pixels"]):
+            return {"mismatch": True, "call": step, "resolution": r, "what": "sum/nnz attributes", "impl": [float(c.info["sum"]), int(c.info["nnz"])],
+                    "model": [want["total"] / scale, len(want["pixels"])]}
+        v = [x for x in monitor.violations(out, f"resolutions/{r}") if scale == 1 or "sum" not in x]
+        if v:
+            return {"mismatch": True, "call": step, "resolution": r, "what": "schema (C02 monitor)", "violated": v}
+    return None
+
+
+def _sequence(case):
+    """calls in one process, `dtypes` omitted: what one call does must not depend on the calls made before it"""
+    d = gen.tmpdir()
+    tag = _tag()
+    paths, outs = [], []
+    try:
+        for k, step in enumerate(case["steps"]):
+            b = step["base"]
+            p = os.path.join(d, f"zs-{tag}-b{k}.cool")
+            o = os.path.join(d, f"zs-{tag}-o{k}.mcool")
+            paths.append(p)
+            outs.append(o)
+            if step["kind"] == "float":
+                _write_float_base(p, b)
+            else:
+                gen.write_cooler(p, b["bins"], b["pixels"], symm=b.get("symm", True))
+            # `dtypes` (and `columns`, `agg`) are OMITTED on purpose
+            impl(cooler.zoomify_cooler, p, o, list(step["resolutions"]), case["chunksize"])
+            r = _check_levels_dtype(o, b, step["resolutions"], case["chunksize"], 4 if step["kind"] == "float" else 1,
+                                    "f" if step["kind"] == "float" else "i", f"{k} ({step['kind']})")
+            if r:
+                r["note"] = ("a level does not equal the coarsening of its own base after earlier zoomify_cooler calls in the same "
+                             "process (calls so far: " + ", ".join(s_["kind"] for s_ in case["steps"][:k + 1]) + ")")
+                return r
+        return None
+    finally:
+        _unlink(*paths, *outs)
+
+
+CHECKS = {"zoomify": _zoomify, "columns": _columns, "cli": _cli, "forms": _forms, "sequence": _sequence, "multseq": _multseq,
+          "preferred": _preferred}
 
 
 # ----------------------------------------------------------------------------------------------
@@ -437,6 +578,27 @@ def cases(tier, rng):
                                    variable=False)
     for _ in range(24 if thorough else 8):
         yield "zoomify", _one_case(rng, rng.sample(range(2, 13), rng.randint(1, 3)), thorough, variable=True, bad=False)
+    # presentation of the target set; sequences of calls in one process -----------------------------------------------
+    yield "forms", {"bases": [b2], "resolutions": [8, 4, 6], "chunksize": 3}
+    yield "forms", {"bases": [b1, b4], "resolutions": [2, 6, 8], "chunksize": 5}
+    yield "forms", {"bases": [b1], "resolutions": [4, 8, 12], "chunksize": 4}          # also presentable as range(4, 13, 4)
+    for _ in range(10 if thorough else 3):
+        c = _one_case(rng, rng.sample(range(2, 13), rng.randint(1, 3)), False, bad=False, variable=False)
+        c.pop("uri_order", None); c.pop("single_str", None); c.pop("nproc", None)
+        c["resolutions"] = sorted(set(c["resolutions"]), key=lambda x: rng.random())
+        yield "forms", c
+    for t in range(8 if thorough else 3):
+        w = rng.randint(1, 3)
+        lengths = [rng.randint(2 * w + 1, 6 * w + 3)] + ([rng.randint(1, 3 * w)] if rng.random() < 0.5 else [])
+        steps = []
+        for kind in (["int", "float", "int"] if t % 2 == 0 else ["int", "float"]):
+            b = _base(rng, lengths, w, True, rng.choice(["random", "dense-random", "full"]))
+            if not b["pixels"]:
+                b = _base(rng, lengths, w, True, "full")
+            if kind == "float":     # numerators: at least one value that is not a whole number, sums that are not whole either
+                b["pixels"] = [[i, j, 4 * (v % 5) + 1 + (k % 3)] for k, (i, j, v) in enumerate(b["pixels"])]
+            steps.append({"kind": kind, "base": b, "resolutions": [w * m for m in rng.sample(range(2, 9), rng.randint(1, 3))]})
+        yield "sequence", {"steps": steps, "chunksize": rng.randint(1, 12)}
     # CLI spellings --------------------------------------------------------------------------------
     big = {"width": 1, "bins": _fixed_bins([1500, 700], 1), "symm": True,
            "pixels": sorted([rng.randrange(0, 1100), rng.randrange(1100, 2200), 1 + k] for k in range(12))}
@@ -469,6 +631,10 @@ def cases(tier, rng):
 
 
 def nontrivial(name, case):
+    if name == "sequence":
+        return len(case["steps"]) >= 2
+    if name == "forms":
+        return len(case["resolutions"]) >= 1
     if name in ("zoomify", "cli", "columns"):
         return len(case["bases"][0]["pixels"]) >= 2 and (name == "cli" or len(set(case["resolutions"])) >= 1)
     if name == "multseq":
@@ -483,6 +649,10 @@ def distribution(name, case):
 
 
 def shrink(name, case):
+    if name == "forms":
+        for f in sorted(FORMS) + ["range"]:
+            if case.get("forms") != [f]:
+                yield dict(case, forms=[f])
     if name == "zoomify":
         res = case["resolutions"]
         for i in range(len(res)):
